@@ -119,7 +119,7 @@ Lemma levels_ok_agree base fa : forall steps s below gs levels fail,
 Proof.
   induction steps as [|st r IH]; intros s below gs levels fail FA.
   - destruct gs, levels; simpl in FA; try discriminate; reflexivity.
-  - cbn [levels_ok]. destruct (spec_wraps s (s_injected st) (s_expected st)) as [s'|e].
+  - cbn [levels_ok]. destruct (spec_wraps_opt (o_inject_to_varkw (s_options st)) s (s_injected st) (s_expected st)) as [s'|e].
     + destruct gs as [|g gs'], levels as [|o levels']; simpl in FA; try discriminate; [reflexivity|].
       apply andb_true_iff in FA as [LA FA']. cbn [map].
       unfold level_agree in LA. repeat (apply andb_true_iff in LA as [LA ?]).
